@@ -15,6 +15,7 @@ def encList (l : List (List Char)) : String := ",".intercalate (l.map (fun s => 
 
 def showQErr : QErr → String
   | .newline => "ERR:newline"
+  | .pipe => "ERR:pipe"
 
 def showQ : Except QErr (List Char) → String
   | .ok s => "ok:" ++ encodeStr s
@@ -124,6 +125,14 @@ def handle (cmd : String) (fs : List String) : String :=
     | .ok ls => "ok:" ++ ";".intercalate (ls.map encList)
     | .error e => showShErr e
   | "bav", [s] => encList (buildargv (decodeStr s))
+  | "exeparse", [l] =>
+    let showOpt (o : Option (List Char)) : String := match nonEmpty? o with
+      | some v => "s" ++ encodeStr v | none => "n"
+    match mesonExeParse (decList l) with
+    | .run c f argv => "run:" ++ showOpt c ++ ";" ++ showOpt f ++ ";" ++ encList argv
+    | .unpickle f => "unpickle:" ++ encodeStr f
+    | .helpExit => "exit:0"
+    | .usageError => "exit:2"
   | "nshesc", [s] => encodeStr (ninjaShellEscape (decodeStr s))
   | _, _ => "bad-op"
 
